@@ -776,11 +776,11 @@ def gen(ctx):
     cases = []
     for q in (["one"], ["maj"], ["all"], ["n", 1], ["n", 2], ["n", 7], ["n", 2 ** 64 - 1]):
         cases.append({"kind": "quorum", "q": q})
-    for _ in range(500 if quick else 6000):
+    for _ in range(1500 if quick else 12000):
         cases.append(gen_hist(rng, deep=not quick))
-    for _ in range(150 if quick else 1500):
+    for _ in range(300 if quick else 2500):
         cases.append(gen_split(rng, 16 if quick else 48))
-    for _ in range(120 if quick else 1200):
+    for _ in range(300 if quick else 2000):
         cases.append(gen_target(rng))
     if not quick:
         cases += exhaustive_orders(rng, 6000)
@@ -788,6 +788,9 @@ def gen(ctx):
 
 
 def run(ctx):
+    # the harness build comes first: it is the long step, and the Coq objects the case evaluation
+    # loads should be as fresh as possible (other checks regenerate gen/Consts.v concurrently)
+    binary = ctx.cargo_build("c05")
     ctx.regen_consts()
     ctx.prove("props/C05.v", THEOREMS, extra_trusted=[
         "model coq/model/GetRecord.v (hand-written) tied to event/kad.rs, cmd.rs, driver.rs, lib.rs by this run's "
@@ -796,7 +799,6 @@ def run(ctx):
         "harness/crates/c05 (real client-mode SwarmDriver, real Network on harness-owned channels, real BLS-signed "
         "registers/scratchpads/transactions), hook block at the end of ant-networking/src/event/kad.rs",
         "tools/props/C05.py (generator, oracle, canonicaliser)"])
-    binary = ctx.cargo_build("c05")
     cases = ctx.corpus() + ([] if ctx.replay else gen(ctx))
     ctx.cov["exhaustive"] = ctx.tier != "quick"
     ctx.pipeline(cases, binary, oracle_factory(close_group_size()), model_term, IMPORTS, nontrivial=nontrivial,
